@@ -151,6 +151,16 @@ class Model:
                 return c
         return cs[0]
 
+    def element_indices(self, rel):
+        """[(type snake, field, [positions of that type])] for the per-element row lists of relation `rel`"""
+        out = []
+        tys = self.rel_types[rel]
+        for t in sorted(set(tys)):
+            f = '%s_%s_element_index' % (rel, t)
+            if any(x == f for x, _ in self.fields):
+                out.append((t, f, [i for i, x in enumerate(tys) if x == t]))
+        return out
+
     def tree_arities(self):
         s = set(c.tree_arity for c in self.copies)
         s.add(1)
@@ -244,6 +254,12 @@ def ghost_impl(model):
         n = len(model.rels[r])
         A('        &&& forall|t: Seq<u32>| #[trigger] self.t_%s().contains(t) ==> t.len() == %d%s'
           % (r, n, ''.join(' && t[%d] < self.n_%s()' % (i, model.rel_types[r][i]) for i in range(n))))
+        # the new/old PARTITION: no tuple is in both ages
+        A('        &&& forall|t: Seq<u32>| !(#[trigger] self.t_%s_new().contains(t) && self.t_%s_old().contains(t))' % (r, r))
+        # per-element row lists: every row of the relation is listed under each of its components (what canonicalize relies on)
+        for ty, f, positions in model.element_indices(r):
+            A('        &&& forall|row: Seq<u32>| #[trigger] self.t_%s().contains(row) ==> %s'
+              % (r, ' && '.join('ei_has%d(&self.%s, row[%d], row)' % (n, f, i) for i in positions)))
     A('    }')
     return '\n'.join(L) + '\n'
 
